@@ -2,7 +2,7 @@
     import/merge, open/close, removal, replica writes, per-document settings (useful peers,
     download policy), author heads and news detection, content hashes, reopen.
     No proofs in this file. *)
-From ID Require Export Model.Ranger Model.Policy Model.Query.
+From ID Require Export Model.Ranger Model.Policy Model.Query Model.Heads.
 
 Record sstate := mkS { s_tables : tables; s_open : list N; s_clock : N (* peer-registration clock *) }.
 Definition sinit : sstate := mkS empty_tables [] 1.
@@ -32,7 +32,8 @@ Inductive sop :=
   | SQuery (ns : N) (q : query)
   | SMatches (p : policy) (k : bytes)                   (* DownloadPolicy::matches *)
   | SFilterText (f : filter_kind) (is_utf8 : bool)       (* to_string, then parse back *)
-  | SFilterParse (t : bytes).                            (* FromStr on arbitrary text *)
+  | SFilterParse (t : bytes)
+  | SHeadsEncode (heads : list (N * N)) (limit : option N).   (* AuthorHeads::encode(limit), heads ascending by author *)                            (* FromStr on arbitrary text *)
 
 Inductive sres :=
   | RImport (o : import_outcome)
@@ -50,7 +51,8 @@ Inductive sres :=
   | REntries (l : list entry)
   | RBool (b : bool)
   | RText (t : bytes) (back : option filter_kind)
-  | RFilter (f : option filter_kind).
+  | RFilter (f : option filter_kind)
+  | RHeadItems (items : list (N * N)) (len : N).   (* decoded (timestamp, author) items of the encoding, and its length in bytes *)
 
 Section StoreOps.
   Variable key_succ : bytes -> option bytes.
@@ -223,5 +225,8 @@ Section StoreOps.
     | SMatches p k => (s, RBool (policy_matches p k))
     | SFilterText f u => (s, RText (filter_display u f) (filter_parse (filter_display u f)))
     | SFilterParse t => (s, RFilter (filter_parse t))
+    | SHeadsEncode heads limit =>
+        let items := heads_encode_items false heads limit in
+        (s, RHeadItems items (items_size items))
     end.
 End StoreOps.
